@@ -163,7 +163,7 @@ def libcMbsToWcs (xs : List Nat) (len : Nat) (acc : List Nat) : Option (List Nat
   | some _ =>
     match libcMbrtowc xs len with
     | some (k, v) =>
-      if h : 0 < k ∧ k ≤ len then libcMbsToWcs (xs.drop k) (len - k) (acc ++ [v]) else none
+      if _h : 0 < k ∧ k ≤ len then libcMbsToWcs (xs.drop k) (len - k) (acc ++ [v]) else none
     | none => none
 termination_by len
 decreasing_by omega
